@@ -518,6 +518,7 @@ var dtUnroll bool
 var dtTrack bool
 
 func runDecisionRows(c *core.Ctx, e *Env, pkgPath, defaultType string, rows []dtRow) {
+	fillRecClosures(e)
 	runWith := func(ctx *core.Ctx, rs []dtRow, pure, unroll, track bool) {
 		var plain, tracked []dtRow
 		for _, r := range rs {
